@@ -120,6 +120,9 @@ class CV:
     def __index__(self):
         return self.concretize()
 
+    def __fspath__(self):
+        return self.concretize()
+
     __int__ = __index__
 
     def __iter__(self):
@@ -127,7 +130,7 @@ class CV:
         n = apply(len, self)
         n = n.concretize() if isinstance(n, CV) else n
         for j in range(n):
-            yield apply(lambda s, j=j: s[j], self)
+            yield apply(lambda s, j=j: s[j] if isinstance(s, (list, tuple, str)) else list(s)[j], self)
 
     def __len__(self):
         n = apply(len, self)
